@@ -73,7 +73,11 @@ def main(argv):
                 r["known"] = True
         else:
             r["status"] = core.INCONCLUSIVE
-            r["reason"] = "non-reproducing model (encoding or environment model suspect)"
+            rep_out = next((x["output"] for x in replays if x["signature"] == sig), "")
+            if "Traceback" in rep_out:
+                r["reason"] = "replay harness raised: " + rep_out.strip().splitlines()[-1][:160]
+            else:
+                r["reason"] = "non-reproducing model (encoding or environment model suspect)"
     extra["replays"] = replays
     n = {"held": 0, "violated": 0, "inconclusive": 0}
     for r in results:
